@@ -141,6 +141,12 @@ def run(tier, seed, replay):
                    ([1, 2, 1, 3], [1]), ([[1], [2], [1]], [[1]]), ([1, 2], []), ("a,b,a", ","), ("abab", "ab"), ("", ","), ("abc", ""), ("ab", 3), (3, "ab"), ("ab", 0), ("ab", 0.5), ("ab", -1), ("ab", 1.5), (None, "a"), ("a", None),
                    (5, 0), (5, 0.5), (-5, 3), (5, -3), (-5, -3), (5.5, 2), (2 ** 64 + 1, 7), (7, 2 ** 64 + 1), (-(2 ** 63), -1), (1, float("nan")), (float("nan"), float("nan")), (float("inf"), 2), ([1, [2]], [1, [2]]),
                    ({"a": 1}, {"a": 1.0}), ([], {}), (False, None), (None, None), ("a", "A"), ([0], [False])]
+        # the *_by family with keys that TIE without being constant (stability / first-last rules are only visible then)
+        tied = [jqgen.V(x) for x in ([{"k": i % 3, "i": i} for i in range(16)], [{"k": i % 2, "i": i} for i in range(40)], [[i % 4, i] for i in range(30)], [{"k": [i % 2], "i": i} for i in range(20)], [{"k": None, "i": 2}, {"k": None, "i": 1}],
+                                     [{"k": "a", "i": i} for i in range(14)] + [{"k": "A", "i": 99}])]
+        for nm in ("sort_by", "group_by", "unique_by", "min_by", "max_by"):
+            for key in (".k", ".[0]?", ".k?", "(.k | tostring)?", ".i % 2", "[.k, 0]?"):
+                cases.append({"src": ".[0] | %s(%s)" % (nm, key), "inputs": [{"t": "arr", "a": [t]} for t in tied], "name": nm + ":" + key})
         for op in OPERATORS:
             ins = [{"t": "arr", "a": [a, b]} for a in uni for b in uni] if not quick else tuples(1, 120)
             ins += [{"t": "arr", "a": [jqgen.V(a), jqgen.V(b)]} for a, b in OPPAIRS]
